@@ -98,6 +98,81 @@ def shortest_repr_tie(v, py_text, rs_text):
         return False
 
 
+def _insert_separator(text, inter, sep, cnt):
+    n = len(text)
+    for i in range(1, cnt + 1):
+        k = n - inter * i
+        text = text[:k] + sep + text[k:]
+    return text
+
+
+def _separate_integer(text, inter, sep, disp):
+    n = len(text)
+    disp += 1 if disp % (inter + 1) == 0 else 0
+    pad = disp - n
+    sep_cnt = int(disp / (inter + 1))
+    if pad > 0 and pad - sep_cnt > 0:
+        return _insert_separator("0" * (pad - sep_cnt) + text, inter, sep, sep_cnt)
+    return _insert_separator(text, inter, sep, int((n - 1) / inter) if n else 0)
+
+
+def repr_tie_variants(a):
+    """Digit strings of the same length as repr(a) whose last mantissa digit differs by one and which still round-trip."""
+    r = repr(a)
+    m = re.match(r"^(\d+\.?\d*?)(\d)((?:e[+-]\d+)?)$", r)
+    out = []
+    if m:
+        for d in (-1, 1):
+            nd = int(m.group(2)) + d
+            if 0 <= nd <= 9:
+                alt = m.group(1) + str(nd) + m.group(3)
+                try:
+                    if float(alt) == a:
+                        out.append(alt)
+                except ValueError:
+                    pass
+    return out
+
+
+def crate_grouped_float(v, f, repr_style, raw=None):
+    """Transliteration of FormatSpec::format_float's grouping path (add_magnitude_separators_for_char, separate_integer,
+    insert_separator, format_sign_and_align) for inf / nan and for floats without presentation type; used only to pin
+    the two known grouping classes to the crate's present behaviour."""
+    import math
+    up = f["type"] in ("F", "E", "G")
+    if raw is not None:
+        pass
+    elif v != v:
+        raw = "NAN" if up else "nan"
+    elif abs(v) == float("inf"):
+        raw = "INF" if up else "inf"
+    elif f["type"] is None:
+        if f["prec"] is None:
+            raw = repr(abs(v))
+        else:
+            raw = format(abs(v), ("#" if f["alt"] else "") + "." + f["prec"] + ("" if repr_style else "g"))
+    else:
+        return None
+    neg = v == v and math.copysign(1.0, v) < 0
+    sign = "-" if neg else {"+": "+", " ": " "}.get(f["sign"] or "-", "")
+    width = int(f["width"]) if f["width"] else None
+    disp = max((width if width is not None else len(raw)) - len(sign), len(raw))
+    ip = raw.split(".", 1)[0]
+    mag = _separate_integer(ip, 3, f["group"], disp - (len(raw) - len(ip))) + raw[len(ip):]
+    fill, align = f["fill"], f["align"]
+    if f["zero"] and fill is None:
+        fill, align = "0", align or "="
+    fill, align = fill or " ", align or ">"
+    need = max(0, width - len(mag) - len(sign)) if width is not None else 0
+    if align == "<":
+        return sign + mag + fill * need
+    if align == ">":
+        return fill * need + sign + mag
+    if align == "=":
+        return sign + fill * need + mag
+    return fill * (need // 2) + sign + mag + fill * (need - need // 2)
+
+
 def fields(spec):
     m = SPEC_RE.match(spec)
     return m.groupdict() if m else None
@@ -139,22 +214,48 @@ def classify(kind, v, spec, py, rs):
     if isfloat and t is None and f["prec"] is None and not grp and pk == "OK" and rk == "OK" and shortest_repr_tie(v, py[1], rs[1]):
         return "float-no-type-shortest-repr-tie-broken-differently"
     if kind == "str":
-        if pk == "ERR" and rk == "OK" and (f["sign"] or f["alt"] or f["align"] == "=" or f["zero"] or grp):
-            return "string-spec-sign-alt-equals-align-not-rejected"
+        if pk == "ERR" and rk == "OK" and (f["sign"] or f["alt"] or f["align"] == "=" or f["zero"] or grp) and t in (None, "s"):
+            # exactly: the crate ignores sign, '#' and grouping on a string, reads '=' as right alignment and the zero flag
+            # as fill '0' (right-aligned unless an alignment is given), and otherwise formats as Python does
+            al = f["align"]
+            fill = f["fill"] or ("0" if f["zero"] else "")
+            if al == "=" or (not al and f["zero"]):
+                al = ">"
+            try:
+                model = format(v, ((fill + al) if al else "") + (f["width"] or "") + ("." + f["prec"] if f["prec"] is not None else ""))
+            except ValueError:
+                model = None
+            return "string-spec-sign-alt-equals-align-not-rejected" if rs[1] == model else None
         if pk == "OK" and rk == "OK" and f["zero"] and not f["align"]:
             # exactly: the crate pads on the left (as for numbers) where Python pads a string on the right
             model = format(v, "0>" + (f["width"] or "") + ("." + f["prec"] if f["prec"] is not None else ""))
             return "string-zero-flag-padding-differs" if rs[1] == model else None
     if kind == "bool" and t is None and spec != "" and rs == ("OK", "True" if v else "False"):
         return "bool-without-type-formatted-as-text-not-int"
-    if t == "c":
-        if f["prec"] is not None or f["sign"] or f["alt"] or grp or kind != "int" or (isinstance(v, int) and not (0 <= v < 0x110000)) or f["zero"] or f["align"] == "=" or f["width"]:
-            return "char-conversion-validation-and-padding"
+    if t == "c" and kind in ("int", "bool") and rk == "OK" and not (f["sign"] or f["alt"] or grp):
+        # exactly: the crate ignores a precision on 'c' (Python rejects it) and pads to the width counted in UTF-8 bytes of
+        # the character (Python counts characters); everything else about the field is as in Python
+        cp = int(v)
+        if 0 <= cp < 0x110000 and not (0xD800 <= cp <= 0xDFFF):
+            extra = len(chr(cp).encode("utf-8")) - 1
+            w = f["width"]
+            w2 = str(max(int(w) - extra, 0)) if w else ""
+            spec2 = (((f["fill"] or "") + f["align"]) if f["align"] else "") + ("0" if f["zero"] else "") + (w2 if w2 != "0" else "") + "c"
+            model = py_format(cp, spec2)
+            if model[0] == "OK" and model[1] == rs[1] and (f["prec"] is not None or extra):
+                return "char-conversion-validation-and-padding"
+        return None
     if grp and pk == "OK" and rk == "OK" and kind in ("int", "float", "bool"):
-        if special:
-            return "grouping-applies-width-as-zero-padding"
-        if isfloat and t is None:
-            return "grouping-no-type-float-exponent-form"
+        if special or (isfloat and t is None):
+            # exactly what the crate's separator insertion does with a magnitude text that is not a plain digit string
+            if rs[1] in (crate_grouped_float(v, f, False), crate_grouped_float(v, f, True)):
+                return "grouping-applies-width-as-zero-padding" if special else "grouping-no-type-float-exponent-form"
+            if not special and f["prec"] is None:
+                # the same with the other of two equally short round-trip digit strings (the repr tie, see below)
+                for alt in repr_tie_variants(abs(v)):
+                    if rs[1] == crate_grouped_float(v, f, False, raw=alt):
+                        return "float-no-type-shortest-repr-tie-broken-differently"
+            return None
         # exactly: with a grouping option the crate pads to the width with grouped zeros whether or not the zero flag /
         # '=' alignment was given, i.e. it prints what Python prints for the same spec with fill/align replaced by '0'
         try:
@@ -164,8 +265,14 @@ def classify(kind, v, spec, py, rs):
         if rs[1] == model:
             return "grouping-applies-width-as-zero-padding" if (f["width"] and not f["zero"] and f["align"] != "=") else "grouping-zero-padding-width-accounting"
         return None
-    if isfloat and t is None and pk == "OK" and rk == "OK" and (f["prec"] is not None or f["alt"]):
-        return "float-no-type-with-precision-or-alt"
+    if isfloat and t is None and pk == "OK" and rk == "OK" and (f["prec"] is not None or f["alt"]) and not grp:
+        # exactly: without a presentation type the crate formats with 'g' when a precision is given (Python keeps at least
+        # one fractional digit) and ignores '#' when none is given (repr-style text)
+        base = ((f["fill"] or "") + f["align"] if f["align"] else "") + (f["sign"] or "")
+        tail = ("0" if f["zero"] else "") + (f["width"] or "")
+        spec2 = base + tail if f["prec"] is None else base + ("#" if f["alt"] else "") + tail + "." + f["prec"] + "g"
+        model = py_format(v, spec2)
+        return "float-no-type-with-precision-or-alt" if model == rs else None
     return None
 
 
